@@ -12,8 +12,8 @@ import (
 	"github.com/inbucket/inbucket/v3/pkg/extension"
 	"github.com/inbucket/inbucket/v3/pkg/storage"
 	"github.com/inbucket/inbucket/v3/vsim/models"
-	"github.com/inbucket/inbucket/v3/vsim/simnet"
 	"github.com/inbucket/inbucket/v3/vsim/simfs"
+	"github.com/inbucket/inbucket/v3/vsim/simnet"
 	"github.com/inbucket/inbucket/v3/vsim/simrt"
 )
 
@@ -348,19 +348,19 @@ type c13Run struct {
 	removedByOther map[string]bool
 
 	// session as the replies define it
-	state     string // auth | txn | end
-	user      string
-	userKnown bool
-	preOK     bool // a listing of the candidate mailbox was taken before PASS/APOP
-	preBox    string
-	preSnap   []models.POP3Msg
-	mailbox   string
-	model     *models.POP3State
-	unsure    bool // the model no longer knows mailbox or marks: nothing is asserted
-	ending    string
-	ambiguous bool // QUIT was sent in TRANSACTION state but its reply was not read
+	state               string // auth | txn | end
+	user                string
+	userKnown           bool
+	preOK               bool // a listing of the candidate mailbox was taken before PASS/APOP
+	preBox              string
+	preSnap             []models.POP3Msg
+	mailbox             string
+	model               *models.POP3State
+	unsure              bool // the model no longer knows mailbox or marks: nothing is asserted
+	ending              string
+	ambiguous           bool // QUIT was sent in TRANSACTION state but its reply was not read
 	quitUnreadCommitted bool // ... and the connection was not reset: the server did receive it
-	marked    map[string]bool
+	marked              map[string]bool
 
 	open         bool // connection established and not yet ended by the client
 	other        *simrt.Task
@@ -368,8 +368,8 @@ type c13Run struct {
 	midDone      bool
 	quitSent     bool // the client has sent QUIT in TRANSACTION state
 	commitBegun  bool // ... and the server has made a file-system step since
-	extChanges   int // mutations of the session mailbox by the other task so far
-	extDuring    int // ... while the session was open
+	extChanges   int  // mutations of the session mailbox by the other task so far
+	extDuring    int  // ... while the session was open
 	listings     int
 	listingsExt  int // listings verified after >=1 external change
 	deles        int
